@@ -126,12 +126,29 @@ pub fn hook_table(rng: &mut Rng, hard_failures: bool) -> (Vec<HookCfg>, Vec<Grou
 		}
 		groups.push(GroupCfg { name: format!("grp{}", g), hooks: members });
 	}
+	// a group reached more than once from one name: listed twice in a later group, or through two
+	// different groups ("diamond")
+	if groups.len() >= 2 && rng.chance(1, 3) {
+		let last = groups.len() - 1;
+		let inner = groups[rng.below(last as u64) as usize].name.clone();
+		let at = rng.below(groups[last].hooks.len() as u64 + 1) as usize;
+		groups[last].hooks.insert(at, inner.clone());
+		if rng.chance(1, 2) {
+			groups[last].hooks.push(inner);
+		}
+	}
 	let pick_list = |rng: &mut Rng, hooks: &Vec<HookCfg>, groups: &Vec<GroupCfg>| -> Vec<String> {
 		let mut names: Vec<String> = hooks.iter().map(|h| h.name.clone()).collect();
 		names.extend(groups.iter().map(|g| g.name.clone()));
 		rng.shuffle(&mut names);
 		let keep = rng.range(1, names.len() as u64) as usize;
 		names.truncate(keep);
+		if rng.chance(1, 5) {
+			// the same hook or group attached twice
+			let again = names[rng.below(names.len() as u64) as usize].clone();
+			let at = rng.below(names.len() as u64 + 1) as usize;
+			names.insert(at, again);
+		}
 		names
 	};
 	let cert_list = pick_list(rng, &hooks, &groups);
